@@ -228,6 +228,9 @@ func (m *mstate) runNode(id int) (string, string) {
 				break
 			}
 		}
+		if e == "" && n.Wrap != "" {
+			a = normAction(n.Wrap) // the wrapper type's own Post decides the action
+		}
 		return a, e
 	case "batch":
 		return m.runBatch(n)
@@ -264,6 +267,16 @@ func (m *mstate) runFlow(n *NodeSpec) (string, string) {
 		cur = next
 	}
 	return last, ""
+}
+
+// execErrTok names the error a failing exec attempt returns. The "typednil"
+// flavour is one shared value (a nil pointer in a non-nil error interface): it
+// has no token of its own.
+func execErrTok(o Outcome, tok string) string {
+	if o.Fail == "typednil" {
+		return "typednil"
+	}
+	return tok + "X"
 }
 
 func normAction(a string) string {
@@ -338,8 +351,8 @@ func (m *mstate) runLeaf(n *NodeSpec) (string, string) {
 				m.emit(MEv{Kind: "exec_end", N: n.ID, V: v, A: a, S1: "errres:" + tok + "X"})
 				ok = true
 			default:
-				lastErr = tok + "X"
-				lastEnd = m.emit(MEv{Kind: "exec_end", N: n.ID, V: v, A: a, S1: "err:" + tok + "X"})
+				lastErr = execErrTok(o, tok)
+				lastEnd = m.emit(MEv{Kind: "exec_end", N: n.ID, V: v, A: a, S1: "err:" + lastErr})
 			}
 			if ok {
 				break
@@ -444,8 +457,8 @@ func (m *mstate) itemLane(n *NodeSpec, v, i int, it *Item, budget, wait int, tim
 			mi.Lane = append(mi.Lane, MEv{Kind: "exec_end", N: n.ID, V: v, A: a, I: i + 1, S1: "errres:" + tok + "X", T: t()})
 			ok = true
 		default:
-			lastErr = tok + "X"
-			mi.Lane = append(mi.Lane, MEv{Kind: "exec_end", N: n.ID, V: v, A: a, I: i + 1, S1: "err:" + tok + "X", T: t()})
+			lastErr = execErrTok(o, tok)
+			mi.Lane = append(mi.Lane, MEv{Kind: "exec_end", N: n.ID, V: v, A: a, I: i + 1, S1: "err:" + lastErr, T: t()})
 		}
 		if ok {
 			break
